@@ -1,6 +1,7 @@
 import XsVerif.Driver.Util
 import XsVerif.Model.Defuse
 import XsVerif.Model.Prolog
+import XsVerif.Model.OpenFlow
 open Lean XsVerif.Driver XsVerif.Defuse
 
 namespace XsVerif.Driver.C13
@@ -309,6 +310,16 @@ def handle (j : Json) : Except String Json := do
       let (pa, r2) := r1.readMany ms
       return Json.mkObj [("scan", digest sc), ("pos", r.pos), ("buf", r.buf.length), ("seek_ok", true),
         ("parse", digest pa), ("rest", digest (r2.read none).1)]
+  | "open_flow" =>
+    -- a file-like source in an initial state: where the scan starts, where the parser starts, whether the scan
+    -- lets the stream through (and what a scan started at the initial position would have said)
+    let data ← fromHex (← getStr j "hex")
+    let st : XsVerif.OpenFlow.Stream := { seekable := ← getBool j "seekable", data := data, pos := ← getNat j "pos" }
+    let defused ← getBool j "defused"
+    return Json.mkObj [("scan_from", st.afterGuard), ("parse_from", st.parseFrom),
+      ("refused", (XsVerif.OpenFlow.openResult defused st).isNone),
+      ("scan_verdict", P.verdictJson (XsVerif.Prolog.classify st.scanned)),
+      ("parsed", digest ((XsVerif.OpenFlow.openResult defused st).getD []))]
   | "events" =>
     let p ← P.prolog (← j.getObjVal? "ast")
     let refs ← (← getArr j "refs").toList.mapM (fun v => do pure (toBytes (← v.getStr?)))
